@@ -1017,6 +1017,30 @@ pub fn run(tier: &str, seed: u64, em: &mut Emitter) {
         emit_uri(em, "systematic-bytes", &format!("matrix:roomid/a?action=%{b:02X}%80%80%80"));
     }
 
+    // identifiers at and around the 255-byte limit, made of characters that stay as they are, that
+    // are escaped (1 byte -> 3) and that are multi-byte and escaped (3 bytes -> 9): the text of a
+    // legal value is up to three times as long as the identifiers
+    for fill in ["a", "%", "/", "\u{e9}", "\u{90e8}", "\u{1F600}"] {
+        for total in [200usize, 252, 253, 254, 255, 256] {
+            let mk = |sigil: &str, tail: &str| {
+                let room = total.saturating_sub(sigil.len() + tail.len());
+                format!("{sigil}{}{tail}", fill.repeat(room / fill.len()))
+            };
+            let room = mk("!", ":x.y");
+            let opaque = mk("!", "");
+            let alias = mk("#", ":x.y");
+            let user = mk("@", ":x.y");
+            let ev = mk("$", ":x.y");
+            let via = vec!["x.y".to_owned()];
+            emit_ctor(em, "systematic-long", &Id::Room(room.clone()), &via);
+            emit_ctor(em, "systematic-long", &Id::Room(opaque), &[]);
+            emit_ctor(em, "systematic-long", &Id::Alias(alias.clone()), &[]);
+            emit_ctor(em, "systematic-long", &Id::User(user), &[]);
+            emit_ctor(em, "systematic-long", &Id::Event(room, ev.clone()), &via);
+            emit_ctor(em, "systematic-long", &Id::Event(alias, ev), &[]);
+        }
+    }
+
     // ---- systematic 3: every action string on every id kind, through texts ------------------------
     for a in ACTIONS {
         for style in 0..3 {
